@@ -23,7 +23,7 @@ void harness(void){
 #if FUNC==1
     { int ok=ref_piw(buf,len,10,&v); int64_t r=htp_parse_positive_integer_whitespace(buf,len,10);
       if(ok && v<=(unsigned __int128)INT64_MAX) assert(r==(int64_t)v); else assert(r<0);
-      int ok16=ref_piw(buf,len,16,&v); r=htp_parse_positive_integer_whitespace(buf,len,16); if(ok16) assert(r==(int64_t)v); else assert(r<0);
+      int ok16=ref_piw(buf,len,16,&v); r=htp_parse_positive_integer_whitespace(buf,len,16); if(ok16 && v<=(unsigned __int128)INT64_MAX) assert(r==(int64_t)v); else assert(r<0);
       VERIF_COVER(ok && len==N && lws(buf[0]) && lws(buf[N-1]), "number with LWS both sides"); }
 #elif FUNC==2  /* status: 100..999 iff LWS* digits LWS* with that value */
     { int ok=ref_piw(buf,len,10,&v); int r=htp_parse_status(b);
@@ -33,7 +33,7 @@ void harness(void){
     { size_t i=0; while(i<len && !(buf[i]>='0'&&buf[i]<='9')) i++;
       int64_t r=htp_parse_content_length(b,NULL);
       if(i==len) assert(r<0);
-      else { while(i<len && buf[i]>='0'&&buf[i]<='9'){ v=v*10+(buf[i]-'0'); i++; } assert(r==(int64_t)v); }
+      else { while(i<len && buf[i]>='0'&&buf[i]<='9'){ v=v*10+(buf[i]-'0'); i++; } if(v<=(unsigned __int128)INT64_MAX) assert(r==(int64_t)v); else assert(r<0); }
       VERIF_COVER(r>0 && i<len, "digits followed by junk"); }
 #elif FUNC==4  /* chunk length: hex, optional leading CR/LF/blank, trailing junk cut, <= INT32_MAX */
     { size_t i=0; while(i<len && (buf[i]==0x0d||buf[i]==0x0a||buf[i]==0x20||buf[i]==0x09||buf[i]==0x0b||buf[i]==0x0c)) i++;
